@@ -23,6 +23,8 @@ let dispatch fn args = match fn, args with
     outcome (handlePermissions (b pok) (bytes_of_hex opw) (bytes_of_hex upw) (z_of_hex m) (z_of_hex p) (z_of_hex r))
   | "access", [enc; ook; uok; pok; opw; upw; m; p; r] ->
     outcome (checkForEncryption (b enc) (b ook) (b uok) (b pok) (bytes_of_hex opw) (bytes_of_hex upw) (z_of_hex m) (z_of_hex p) (z_of_hex r))
+  | "validateOwnerPassword", [r; opw; matches] ->
+    str_of_bool (validateOwnerPassword (z_of_hex r) (bytes_of_hex opw) (b matches))
   | "noCredentials", [opw; upw] -> str_of_bool (noCredentialsSupplied (bytes_of_hex opw) (bytes_of_hex upw))
   | "specKind", [m] -> kind (spec_kind (z_of_hex m))
   | "specMustRefuse", [m; p; r] -> str_of_bool (spec_must_refuse (spec_kind (z_of_hex m)) (z_of_hex p) (z_of_hex r))
